@@ -616,7 +616,7 @@ theorem tstep_private_slice (s s' : TState) (o : TOp) (ob : TObs) (h : tstep s o
   cases o with
   | assign i v => simp only [tstepWith, Option.some.injEq, Prod.mk.injEq] at h; rw [← h.1]; exact hk
   | setShared i v => simp only [tstepWith, Option.some.injEq, Prod.mk.injEq] at h; rw [← h.1]; exact hk
-  | spawn argVars body =>
+  | spawn args body =>
     simp only [tstepWith, ↓reduceIte, Option.some.injEq, Prod.mk.injEq] at h
     rw [← h.1]
     have hlt : k < s.heap.length := by
@@ -657,7 +657,7 @@ theorem tstep_thread_slice (s s' : TState) (o : TOp) (ob : TObs) (h : tstep s o 
   cases o with
   | assign i v => simp only [tstepWith, Option.some.injEq, Prod.mk.injEq] at h; rw [← h.1]; exact ⟨th, ht, rfl, rfl⟩
   | setShared i v => simp only [tstepWith, Option.some.injEq, Prod.mk.injEq] at h; rw [← h.1]; exact ⟨th, ht, rfl, rfl⟩
-  | spawn argVars body =>
+  | spawn args body =>
     simp only [tstepWith, ↓reduceIte, Option.some.injEq, Prod.mk.injEq] at h
     rw [← h.1]
     have hlt : t < s.threads.length := (List.getElem?_eq_some_iff.1 ht).1
@@ -703,7 +703,7 @@ theorem tstep_resultInv (s s' : TState) (o : TOp) (ob : TObs) (h : tstep s o = s
   cases o with
   | assign i v => simp only [tstepWith, Option.some.injEq, Prod.mk.injEq] at h; rw [← h.1]; exact ⟨h1, h2⟩
   | setShared i v => simp only [tstepWith, Option.some.injEq, Prod.mk.injEq] at h; rw [← h.1]; exact ⟨h1, h2⟩
-  | spawn argVars body =>
+  | spawn args body =>
     simp only [tstepWith, ↓reduceIte, Option.some.injEq, Prod.mk.injEq] at h
     rw [← h.1]
     constructor
